@@ -216,7 +216,7 @@ pub fn explore(prop: &str, secs: f64, seed: u64) -> i32 {
   let t0 = std::time::Instant::now();
   let mut n: u64 = 0;
   let mut s = seed.wrapping_mul(1000003);
-  while t0.elapsed().as_secs_f64() < secs {
+  while t0.elapsed().as_secs_f64() < secs || (n < (secs * 1500.0) as u64 && t0.elapsed().as_secs_f64() < 5.0 * secs) {
     for _ in 0..50 {
       n += 1; s = s.wrapping_add(1);
       let (v, _, _, _) = run_case(s);
